@@ -9,7 +9,9 @@ WEBAPP = "hippolyzer/lib/proxy/webapp_cap_addon.py"
 
 _REQ_LOOP = '''            for known_cap_name, (known_cap_type, known_cap_url) in cap_data.region().caps.items():
                 if known_cap_type == CapType.PROXY_ONLY and known_cap_name in parsed_seed:
-                    parsed_seed.remove(known_cap_name)
+                    # Nothing stops the name from being listed more than once
+                    while known_cap_name in parsed_seed:
+                        parsed_seed.remove(known_cap_name)
                     flow.metadata['needed_proxy_caps'].append(known_cap_name)
 '''
 _TEMP = '''                    temporary_caps = self.caps.popall(name)
@@ -21,10 +23,11 @@ _TEMP = '''                    temporary_caps = self.caps.popall(name)
 VARIANTS = [
     # ---- R1 breaking
     {"name": "R1 register_proxy_cap indices swapped again (D14)", "file": REG, "expect": "C16.R1",
-     "old": "            if cap_data[0] == CapType.PROXY_ONLY:\n                return cap_data[1]",
-     "new": "            if cap_data[1] == CapType.PROXY_ONLY:\n                return cap_data[0]"},
+     "old": "        for cap_type, cap_url in self.caps.getall(name, []):\n            if cap_type == CapType.PROXY_ONLY:\n                return cap_url",
+     "new": "        for entry in self.caps.getall(name, []):\n            if entry[1] == CapType.PROXY_ONLY:\n                return entry[0]"},
     {"name": "R1 register_proxy_cap returns the type of the existing cap", "file": REG, "expect": "C16.R1",
-     "old": "                return cap_data[1]", "new": "                return cap_data[0]"},
+     "old": "            if cap_type == CapType.PROXY_ONLY:\n                return cap_url\n        return None",
+     "new": "            if cap_type == CapType.PROXY_ONLY:\n                return cap_type\n        return None"},
     {"name": "R1 cap_urls exposes position 0", "file": REG, "expect": "C16.R1",
      "old": "multidict.MultiDict((x, y[1]) for x, y in self.caps.items())",
      "new": "multidict.MultiDict((x, y[0]) for x, y in self.caps.items())"},
@@ -35,7 +38,7 @@ VARIANTS = [
     {"name": "R1 reverse index stores (name, type)", "file": REG, "expect": "C16.R1",
      "old": "self._caps_url_lookup[cap_url] = (cap_type, name)", "new": "self._caps_url_lookup[cap_url] = (name, cap_type)"},
     {"name": "R1 Session.resolve_cap unpacks (name, type, url)", "file": SESS, "expect": "C16.R1",
-     "old": "cap_name, base_url, cap_type = resolved_cap", "new": "cap_name, cap_type, base_url = resolved_cap"},
+     "old": "cap_name, base_url, cap_type = best", "new": "cap_name, cap_type, base_url = best"},
     {"name": "R1 region.resolve_cap returns (url, name, type)", "file": REG, "expect": "C16.R1",
      "old": "                return name, cap_url, cap_type", "new": "                return cap_url, name, cap_type"},
     {"name": "R1 seed request unpacks (url, type)", "file": HEM, "expect": "C16.R1",
@@ -44,8 +47,8 @@ VARIANTS = [
      "old": "urllib.parse.urlsplit(self.caps[name][1])", "new": "urllib.parse.urlsplit(self.caps[name][0])"},
     # ---- R1 preserving
     {"name": "P R1 unpack instead of indexing in register_proxy_cap", "file": REG, "expect": "silent",
-     "old": "            cap_data = self.caps[name]\n            if cap_data[0] == CapType.PROXY_ONLY:\n                return cap_data[1]",
-     "new": "            existing_type, existing_url = self.caps[name]\n            if existing_type == CapType.PROXY_ONLY:\n                return existing_url"},
+     "old": "        for cap_type, cap_url in self.caps.getall(name, []):\n            if cap_type == CapType.PROXY_ONLY:\n                return cap_url",
+     "new": "        for entry in self.caps.getall(name, []):\n            if entry[0] == CapType.PROXY_ONLY:\n                return entry[1]"},
     {"name": "P R1 _recalc_caps indexes instead of unpacking", "file": REG, "expect": "silent",
      "old": "            cap_type, cap_url = cap_info\n            self._caps_url_lookup[cap_url] = (cap_type, name)",
      "new": "            self._caps_url_lookup[cap_info[1]] = (cap_info[0], name)"},
@@ -151,7 +154,8 @@ VARIANTS = [
             for wanted_cap_name in parsed_seed:
                 known_cap_type, _ = region_caps.get(wanted_cap_name, (None, None))
                 if known_cap_type == CapType.PROXY_ONLY:
-                    parsed_seed.remove(wanted_cap_name)
+                    while wanted_cap_name in parsed_seed:
+                        parsed_seed.remove(wanted_cap_name)
                     flow.metadata['needed_proxy_caps'].append(wanted_cap_name)
 '''},
     {"name": "R5 wrapper caps stripped from the request too", "file": HEM, "expect": "C16.R5",
@@ -160,7 +164,7 @@ VARIANTS = [
     {"name": "R5 stripped name not recorded", "file": HEM, "expect": "C16.R5",
      "old": "                    flow.metadata['needed_proxy_caps'].append(known_cap_name)\n", "new": ""},
     {"name": "R5 recorded name not stripped", "file": HEM, "expect": "C16.R5",
-     "old": "                    parsed_seed.remove(known_cap_name)\n", "new": ""},
+     "old": "                    while known_cap_name in parsed_seed:\n                        parsed_seed.remove(known_cap_name)\n", "new": ""},
     {"name": "R5 upstream request not rewritten", "file": HEM, "expect": "C16.R5",
      "old": "            if flow.metadata['needed_proxy_caps']:\n                flow.request.content = llsd.format_xml(parsed_seed)\n", "new": ""},
     {"name": "R5 response drops a cap the simulator granted", "file": HEM, "expect": "C16.R5",
@@ -169,10 +173,10 @@ VARIANTS = [
      "old": "                    if cap_name in parsed:\n                        parsed[cap_name] = region.register_wrapper_cap(cap_name)",
      "new": "                    parsed[cap_name] = region.register_wrapper_cap(cap_name)"},
     {"name": "R5 recorded names get the Seed URL", "file": HEM, "expect": "C16.R5",
-     "old": "parsed[cap_name] = region.cap_urls[cap_name]", "new": "parsed[cap_name] = region.cap_urls['Seed']"},
+     "old": "parsed[cap_name] = region.proxy_cap_url(cap_name)", "new": "parsed[cap_name] = region.proxy_cap_url('Seed')"},
     {"name": "R5 recorded names re-added only when absent", "file": HEM, "expect": "C16.R5",
-     "old": "                    parsed[cap_name] = region.cap_urls[cap_name]",
-     "new": "                    if cap_name == 'Seed':\n                        parsed[cap_name] = region.cap_urls[cap_name]"},
+     "old": "                    parsed[cap_name] = region.proxy_cap_url(cap_name)",
+     "new": "                    if cap_name == 'Seed':\n                        parsed[cap_name] = region.proxy_cap_url(cap_name)"},
     {"name": "R5 response not re-serialised", "file": HEM, "expect": "C16.R5",
      "old": "                flow.response.content = llsd.format_xml(parsed)\n            elif cap_data.cap_name == \"EventQueueGet\":",
      "new": "            elif cap_data.cap_name == \"EventQueueGet\":"},
@@ -188,7 +192,8 @@ VARIANTS = [
      "new": '''            granted = cap_data.region().caps
             for asked in sorted(set(parsed_seed)):
                 if asked in granted and granted[asked][0] == CapType.PROXY_ONLY:
-                    parsed_seed.remove(asked)
+                    while asked in parsed_seed:
+                        parsed_seed.remove(asked)
                     flow.metadata['needed_proxy_caps'].append(asked)
 '''},
     # ---- R5 preserving
@@ -201,14 +206,16 @@ VARIANTS = [
                 if cap_name not in parsed_seed:
                     continue
                 needed.append(cap_name)
-                parsed_seed.remove(cap_name)
+                while cap_name in parsed_seed:
+                    parsed_seed.remove(cap_name)
             if needed:'''},
     {"name": "P R5 request loop over a copy of the requested names, every entry of the name consulted", "file": HEM,
      "expect": "silent", "old": _REQ_LOOP,
      "new": '''            region_caps = cap_data.region().caps
             for wanted_cap_name in list(parsed_seed):
                 if any(entry_type == CapType.PROXY_ONLY for entry_type, _url in region_caps.getall(wanted_cap_name, ())):
-                    parsed_seed.remove(wanted_cap_name)
+                    while wanted_cap_name in parsed_seed:
+                        parsed_seed.remove(wanted_cap_name)
                     flow.metadata['needed_proxy_caps'].append(wanted_cap_name)
 '''},
     {"name": "P R5 response wrapper loop with early continue", "file": HEM, "expect": "silent",
@@ -216,16 +223,16 @@ VARIANTS = [
      "new": "                    if cap_name not in parsed:\n                        continue\n                    parsed[cap_name] = region.register_wrapper_cap(cap_name)"},
     # ---- R6 breaking
     {"name": "R6 wrapper host derived from the region handle", "file": REG, "expect": "C16.R6",
-     "old": 'seed_id = self.caps["Seed"][1].split("/")[-1].encode("utf8")', "new": 'seed_id = str(self.handle).encode("utf8")'},
+     "old": 'seed_id = self.caps["Seed"][1].encode("utf8")', "new": 'seed_id = str(self.handle).encode("utf8")'},
     {"name": "R6 proxy-only URL derived from the cap name", "file": REG, "expect": "C16.R6",
      "old": 'cap_url = f"http://{uuid.uuid4()!s}.caps.hippo-proxy.localhost"',
      "new": 'cap_url = f"http://{name.lower()}.caps.hippo-proxy.localhost"'},
     # ---- R6 preserving
     {"name": "P R6 wrapper host hashed from the whole Seed URL", "file": REG, "expect": "silent",
-     "old": 'seed_id = self.caps["Seed"][1].split("/")[-1].encode("utf8")',
+     "old": 'seed_id = self.caps["Seed"][1].encode("utf8")',
      "new": 'seed_url = self.caps["Seed"][1]\n        seed_id = seed_url.encode("utf8")'},
     {"name": "P R6 wrapper host from a fresh random id", "file": REG, "expect": "silent",
-     "old": 'seed_id = self.caps["Seed"][1].split("/")[-1].encode("utf8")', "new": 'seed_id = uuid.uuid4().bytes'},
+     "old": 'seed_id = self.caps["Seed"][1].encode("utf8")', "new": 'seed_id = uuid.uuid4().bytes'},
     # ---- round 3 mechanisms
     {"name": "R2 add() leaves an already-stored value where it is", "file": REG, "expect": "C16.R2",
      "old": "        vals = [value] + self.popall(key, [])\n",
@@ -260,14 +267,14 @@ VARIANTS = [
          "new": "        if not cap_url:\n            raise ValueError('empty cap URL')\n        self.caps.add(name, (cap_type, cap_url))\n        self._recalc_caps()"}]},
     # ---- round 4 mechanisms
     {"name": "R9 regions without a handle are not asked to resolve", "file": SESS, "expect": "C16.R9",
-     "old": "            resolved_cap = region.resolve_cap(url)\n",
-     "new": "            if not region.handle:\n                continue\n            resolved_cap = region.resolve_cap(url)\n"},
+     "old": "            resolved_cap = region.resolve_cap(url, consume=False)\n",
+     "new": "            if not region.handle:\n                continue\n            resolved_cap = region.resolve_cap(url, consume=False)\n"},
     {"name": "R9 only the main region is asked", "file": SESS, "expect": "C16.R9",
-     "old": "        for region in self.regions:\n            resolved_cap = region.resolve_cap(url)",
-     "new": "        for region in self.regions[:1]:\n            resolved_cap = region.resolve_cap(url)"},
+     "old": "        for region in self.regions:\n            resolved_cap = region.resolve_cap(url, consume=False)",
+     "new": "        for region in self.regions[:1]:\n            resolved_cap = region.resolve_cap(url, consume=False)"},
     {"name": "P R9 regions iterated over a snapshot", "file": SESS, "expect": "silent",
-     "old": "        for region in self.regions:\n            resolved_cap = region.resolve_cap(url)",
-     "new": "        for region in tuple(self.regions):\n            resolved_cap = region.resolve_cap(url)"},
+     "old": "        for region in self.regions:\n            resolved_cap = region.resolve_cap(url, consume=False)",
+     "new": "        for region in tuple(self.regions):\n            resolved_cap = region.resolve_cap(url, consume=False)"},
     # ---- round 5 mechanisms
     {"name": "R2 cap_urls view built through dict()", "file": REG, "expect": "C16.R2",
      "old": "multidict.MultiDict((x, y[1]) for x, y in self.caps.items())",
@@ -331,12 +338,12 @@ VARIANTS = [
      "new": '                if not seed_url:\n                    pass\n                elif region.cap_urls["Seed"] != seed_url:\n'
             '                    region.update_caps({"Seed": seed_url})'},
     {"name": "R9 manager remembers URLs that did not resolve", "expect": "C16.R9", "edits": [
-        {"file": SESS, "old": "        for session in self.sessions:\n            cap_data = session.resolve_cap(url)",
+        {"file": SESS, "old": "        best_session, best = None, None\n        for session in self.sessions:",
          "new": "        if url in self.addon_ctx.get('unresolved', ()):\n            return CapData()\n"
-                "        for session in self.sessions:\n            cap_data = session.resolve_cap(url)"}]},
+                "        best_session, best = None, None\n        for session in self.sessions:"}]},
     {"name": "P R9 manager returns early when it has no sessions", "file": SESS, "expect": "silent",
-     "old": "        for session in self.sessions:\n            cap_data = session.resolve_cap(url)",
-     "new": "        if not self.sessions:\n            return CapData()\n        for session in self.sessions:\n            cap_data = session.resolve_cap(url)"},
+     "old": "        best_session, best = None, None\n        for session in self.sessions:",
+     "new": "        if not self.sessions:\n            return CapData()\n        best_session, best = None, None\n        for session in self.sessions:"},
     {"name": "R11 webapp addon hook answers with the registered URL", "file": WEBAPP, "expect": "C16.R11",
      "old": "        # response that gets sent back to the client if that cap name was requested.\n        region.register_proxy_cap(self.CAP_NAME)",
      "new": "        # response that gets sent back to the client if that cap name was requested.\n        url = region.register_proxy_cap(self.CAP_NAME)\n        return url"},
@@ -377,6 +384,6 @@ VARIANTS = [
      "old": "cap_url.startswith('http')", "new": "cap_url.startswith('https')"},
     {"name": "X wrapper host truncated to 2 hex digits (collisions are value-level)", "file": REG, "expect": "miss",
      "old": "hashlib.sha256(seed_id).hexdigest()[:16]", "new": "hashlib.sha256(seed_id).hexdigest()[:2]"},
-    {"name": "X longest-prefix / prefix-related URLs (first match in index order wins)", "file": REG, "expect": "miss",
-     "old": "        for cap_url in self._caps_url_lookup.keys():", "new": "        for cap_url in sorted(self._caps_url_lookup.keys(), key=len):"},
+    {"name": "X equal-length ties between tables keep table order (value-level)", "file": SESS, "expect": "miss",
+     "old": "len(resolved_cap[1]) > best_len:", "new": "len(resolved_cap[1]) >= best_len:"},
 ]
